@@ -233,6 +233,18 @@ func GenProg(r Rand, o GenOpts) *Prog {
 				sub.labels = nil // EQUs used by FOR counts must be pure numbers
 				sub.o.UseConsts = false
 			}
+			if o.UseFor {
+				// small pure numbers: they end up in FOR counts
+				var e Expr = Lit{V: r.Intn(6)}
+				if r.Intn(3) == 0 {
+					e = Bin{"+-*"[r.Intn(3)], Lit{V: 1 + r.Intn(3)}, Lit{V: r.Intn(3)}}
+				}
+				if len(sub.equs) > 0 && r.Intn(3) == 0 {
+					e = Bin{'+', Ref{sub.equs[0]}, Lit{V: r.Intn(2)}}
+				}
+				defs = append(defs, &Equ{Name: name, E: e})
+				continue
+			}
 			defs = append(defs, &Equ{Name: name, E: sub.expr(1)})
 		}
 		if o.UseFor {
